@@ -4,6 +4,7 @@
 import JanetModel.Fiber.Macros
 import JanetModel.Fiber.GuardLemmas
 import JanetModel.Fiber.SchedLemmas
+import JanetModel.Fiber.Dyn
 namespace JanetModel.Props.C05
 open JanetModel.Fiber JanetModel.Gen.Fiber
 
@@ -833,5 +834,65 @@ theorem dyn_visibility (denvs : List DEnv) (fuel : Nat) (k : Nat) :
     simp [dynLookup]
   · intro e e' d hne
     exact List.getElem?_set_ne (Ne.symm hne)
+
+/-! ### dynamic bindings along histories: writes, links of any depth, whole executions -/
+
+/-- ★ what a fiber observes is the binding in the nearest table of its chain (own table, then `:p` prototypes) -/
+theorem dyn_observes_nearest_binding (denvs : List DEnv) (k fuel : Nat) (eo : Option Nat) :
+    dynLookup denvs fuel eo k = firstBound denvs k (chainOf denvs fuel eo) :=
+  dynLookup_eq_firstBound denvs k fuel eo
+
+/-- ★ "visible ONLY in the fiber that set them and in children that inherit its environment": a `(setdyn k v)` into table
+    `e` changes nothing for any other key, and nothing at all for an observer whose chain does not contain `e` -/
+theorem dyn_set_invisible_elsewhere (denvs : List DEnv) (e k : Nat) (v : Val) (fuel : Nat) (eo : Option Nat) (k' : Nat)
+    (h : e ∉ chainOf denvs fuel eo ∨ k' ≠ k) :
+    dynLookup (writeTbl denvs e k v) fuel eo k' = dynLookup denvs fuel eo k' :=
+  setdyn_invisible_elsewhere denvs e k v fuel eo k' h
+
+/-- ★ "… and IN children that inherit": an observer that reaches `e` through any number of links, with no nearer table
+    binding `k`, reads the new value (for `:i` the chain starts AT `e`: writes are shared both ways, `pre = []`); a nil write
+    removes the binding from `e` only and uncovers what `e`'s own prototypes say -/
+theorem dyn_set_visible_through_links (denvs : List DEnv) (e k : Nat) (v : Val) (fuel : Nat) (eo : Option Nat) (pre post : List Nat)
+    (d : DEnv) (hd : denvs[e]? = some d) (hc : chainOf denvs fuel eo = pre ++ e :: post)
+    (hpre : ∀ a ∈ pre, a ≠ e ∧ bound denvs a k = none) (hpost : e ∉ post) :
+    dynLookup (writeTbl denvs e k v) fuel eo k = if v = .nil then firstBound denvs k post else v :=
+  setdyn_visible_through_chain denvs e k v fuel eo pre post d hd hc hpre hpost
+
+/-- the instructions are these operations on the running fiber's OWN table / chain -/
+theorem setdyn_instruction_writes_own_table (s : State) (p : FId) (fp : Fiber) (rest : List FId) (l k : Nat) (a : Atom) (kk : Tm) :
+    (execPrim s p fp rest l (.setdyn k a) kk).denvs
+      = writeTbl (ensureEnv s p fp).1.denvs (ensureEnv s p fp).2.2 k (evalAtom s fp.env a) ∨
+    (∃ h, (execPrim s p fp rest l (.setdyn k a) kk).halt = some (.bad h)) :=
+  setdyn_writes_own_table s p fp rest l k a kk
+
+theorem dyn_instruction_reads_own_chain (s : State) (p : FId) (fp : Fiber) (rest : List FId) (l k : Nat) (kk : Tm) :
+    execPrim s p fp rest l (.dyn k) kk
+      = deliverValue s p fp (.bindK l kk false) (firstBound s.denvs k (chainOf s.denvs (s.denvs.length + 1) fp.denv)) :=
+  dyn_reads_own_chain s p fp rest l k kk
+
+/-- how `fiber/new` links the child: `:i` = the parent's table itself; `:p` = fresh empty table with the parent's as
+    prototype (an OLDER table: links cannot form cycles); any other letter = no effect on the environment -/
+theorem fiber_new_env_links (p : FId) (acc : State × Fiber × Option Nat) :
+    ((newEnvStep p acc letterInherit).2.2 = (newEnvStep p acc letterInherit).2.1.denv ∧ (newEnvStep p acc letterInherit).2.2.isSome = true) ∧
+    ((∀ e, acc.2.1.denv = some e → e < acc.1.denvs.length) →
+      ∃ e pe, (newEnvStep p acc letterProto).2.2 = some e ∧ (newEnvStep p acc letterProto).2.1.denv = some pe ∧
+        (newEnvStep p acc letterProto).1.denvs[e]? = some { proto := some pe, tbl := [] } ∧ pe < e) ∧
+    (∀ c, c ≠ letterInherit → c ≠ letterProto → newEnvStep p acc c = acc) :=
+  ⟨new_inherit_shares p acc, new_proto_links p acc, fun c h1 h2 => new_plain_isolated p acc c h1 h2⟩
+
+/-- ★ for ALL histories: along every execution of any script no table is ever removed and no prototype link ever changes —
+    "inherits from" is a permanent relation, so the three theorems above apply to every later write.
+    PARTIAL in one respect (named here, not hidden): that a fiber's `denv` index itself never changes once set is NOT proved
+    as a whole-execution invariant (it holds by inspection: only `ensureEnv` writes the field, from `none`); the trace
+    correspondence + oracle R6 check every `dyn` read of every generated tree against an independent table model. -/
+theorem dyn_links_permanent (n : Nat) (s : State) : DGrow s.denvs (run n s).denvs := run_dgrow n s
+
+/-- non-vacuity: a chain of three tables 2 → 1 → 0 (grand-child :p of child :p of parent); a write to table 0 is seen from 2,
+    a write to table 2 is not seen from 0 or 1, and a nil write to 1 uncovers table 0's binding -/
+example :
+    let ds : List DEnv := [{ proto := none, tbl := [(7, .int 1)] }, { proto := some 0, tbl := [(7, .int 2)] }, { proto := some 1, tbl := [] }]
+    (chainOf ds 4 (some 2), dynLookup (writeTbl ds 0 8 (.int 5)) 4 (some 2) 8, dynLookup (writeTbl ds 2 7 (.int 9)) 4 (some 1) 7,
+     dynLookup (writeTbl ds 1 7 .nil) 4 (some 2) 7) = ([2, 1, 0], .int 5, .int 2, .int 1) := by
+  decide
 
 end JanetModel.Props.C05
